@@ -57,7 +57,7 @@ class C09(Prop):
                           out.append({'harness': 'lockstep', 'world': w, 'k': k, 'ops': h, 'method': method,
                                     'hp': hp, 'intervals': 'callable' if hp == 'callable' else 'sym',
                                     'hook': pick((i, 'hook'), 2), 'acc': 1,
-                                    'model': ['lin', 'two' if (tier == 'thorough' and w <= 2) else 'lin-nb', 'conv'][i % 3], 'clip': False,
+                                    'model': ['lin', 'two' if (tier == 'thorough' and w == 1 and len(h) <= 2) else 'lin-nb', 'conv'][i % 3], 'clip': False,
                                     'init': 'arbitrary', 'colocate': True})
         # boundary 0: a freshly constructed object is checkpointed before any step
         for method in ('eigen', 'inverse'):
